@@ -454,6 +454,331 @@ def shard(arg):
     return p
 
 
+# ------------------------------------------------------------------ sequences: a safe temporary, then an unsafe temporary
+#
+# The safety decision must be taken for every call on the object actually called.  Temporaries (bound methods
+# created by attribute access, callables returned by calls) die right after the call, so a later temporary can
+# occupy the same address; any per-identity shortcut shows up only in a SEQUENCE of calls.
+
+SEQ_KINDS = ["unsafe-method", "alters-method", "unsafe-classmethod", "alters-classmethod", "unsafe-lambda", "alters-lambda",
+             "unsafe-partial", "unsafe-callable-obj", "alters-callable-obj", "unsafe-closure"]
+SEQ_KINDS_ASYNC = ["unsafe-async-method", "alters-async-method"]
+SEQ_KINDS_CUSTOM = ["custom-registry-method", "custom-attr-lambda"]
+
+
+class _Inst:
+    """unmarked / marked instances of one class (same size, same allocator pool)"""
+
+    def __init__(self, run):
+        self._run = run
+
+    def __call__(self, *a, **k):
+        return self._run()
+
+
+def make_resource(kind, marked=True):
+    """An object `r` with safe temporaries (r.safe, r.mk_safe()) and, under `danger` / `mk_danger()`, a temporary
+    of the same python type that is unsafe in the way `kind` says (or unmarked when marked=False: the twin)."""
+    from jinja2.sandbox import unsafe
+
+    run = _body(kind)
+    mark_unsafe = unsafe if marked else (lambda f: f)
+
+    def alters(f):
+        if marked:
+            f.alters_data = True
+        return f
+
+    class R:
+        def safe(self, *a, **k):
+            return "safe"
+
+        @classmethod
+        def csafe(cls, *a, **k):
+            return "safe"
+
+        async def asafe(self, *a, **k):
+            return "safe"
+
+        def mk_safe(self):
+            if kind == "unsafe-partial":
+                return functools.partial(lambda *a, **k: "safe")
+            if kind in ("unsafe-callable-obj", "alters-callable-obj"):
+                return _Inst(lambda: "safe")
+            return lambda *a, **k: "safe"
+
+        def mk_danger(self):
+            if kind == "unsafe-partial":
+                f = functools.partial(lambda *a, **k: run())
+                if marked:
+                    f.unsafe_callable = True
+                return f
+            if kind in ("unsafe-callable-obj", "alters-callable-obj"):
+                f = _Inst(run)
+                if marked:
+                    setattr(f, "unsafe_callable" if kind.startswith("unsafe") else "alters_data", True)
+                return f
+            f = lambda *a, **k: run()  # noqa: E731
+            if marked:
+                if kind in ("unsafe-lambda", "unsafe-closure"):
+                    f.unsafe_callable = True
+                elif kind == "alters-lambda":
+                    f.alters_data = True
+                elif kind == "custom-attr-lambda":
+                    f.blocked = True
+            return f
+
+        def __repr__(self):
+            return "<R>"
+
+    if kind in ("unsafe-method", "custom-registry-method"):
+        def d_impl(self, *a, **k):
+            return run()
+        R.danger = mark_unsafe(d_impl) if kind == "unsafe-method" else d_impl
+    elif kind == "alters-method":
+        def d_impl(self, *a, **k):
+            return run()
+        R.danger = alters(d_impl)
+    elif kind == "unsafe-classmethod":
+        def d_impl(cls, *a, **k):
+            return run()
+        R.danger = classmethod(mark_unsafe(d_impl))
+    elif kind == "alters-classmethod":
+        def d_impl(cls, *a, **k):
+            return run()
+        R.danger = classmethod(alters(d_impl))
+    elif kind == "unsafe-async-method":
+        async def d_impl(self, *a, **k):
+            return run()
+        R.danger = mark_unsafe(d_impl)
+    elif kind == "alters-async-method":
+        async def d_impl(self, *a, **k):
+            return run()
+        R.danger = alters(d_impl)
+    return R()
+
+
+def seq_danger_expr(kind):
+    return "r.danger" if "method" in kind else "r.mk_danger()"
+
+
+def seq_safe_exprs(kind):
+    if "async" in kind:
+        return ["r.asafe", "r.safe"]
+    if "classmethod" in kind:
+        return ["r.csafe", "r.safe"]
+    if "method" in kind:
+        return ["r.safe"]
+    return ["r.mk_safe()"]
+
+
+#: @S = a call through a safe temporary, @D = the callee expression of the unsafe temporary
+SEQ_FORMS = [
+    ("one-then", "{{ @S() }}{{ @D() }}"),
+    ("two-then", "{{ @S() }}{{ @S() }}{{ @D() }}"),
+    ("loop-then", "{% for i in range(4) %}{{ @S() }}{% endfor %}{{ @D() }}"),
+    ("set-then", "{% set a = @S() %}{{ @D() }}"),
+    ("if-then", "{% if @S() %}{{ @D() }}{% endif %}"),
+    ("arg-then", "{{ ident(@S()) }}{{ @D() }}"),
+    ("nested", "{{ ident(@S(), @D()) }}"),
+    ("attr-filter", '{{ (r|attr("safe"))() }}{{ @D() }}'),
+    ("subscript", '{{ r["safe"]() }}{{ @D() }}'),
+    ("builtin-then", '{{ d.get("k") }}{{ "a".upper() }}{{ [1].count(1) }}{{ @D() }}'),
+    ("macro-then", "{% macro m() %}x{% endmacro %}{{ m() }}{{ @D() }}"),
+    ("in-macro", "{% macro m() %}{{ @S() }}{% endmacro %}{{ m() }}{{ @D() }}"),
+    ("danger-in-loop", "{% for i in range(3) %}{{ @S() }}{% if loop.last %}{{ @D() }}{% endif %}{% endfor %}"),
+    ("alias-then", "{% set g = @S %}{{ g() }}{% set g = none %}{{ @D() }}"),
+    ("filter-arg", "{{ 1|default(@S()) }}{{ 2|default(@D()) }}"),
+]
+
+
+def seq_case(cls_name, asy, kind, src_list, marked=True, fresh_each_render=False):
+    """Render the templates of src_list one after another on ONE environment."""
+    env = make_env(cls_name, asy)
+    r = make_resource(kind, marked)
+    if cls_name == "custom" and kind == "custom-registry-method" and marked:
+        env.registry = [r.danger]
+    del CALLS[:]
+    out = []
+    for src in src_list:
+        if fresh_each_render:
+            r = make_resource(kind, marked)
+            if cls_name == "custom" and kind == "custom-registry-method" and marked:
+                env.registry = [r.danger]
+        comp = sbx.compile_src(env, src)
+        out.append(sbx.render_code(env, comp, {"r": r, "d": {"k": 1}}))
+    return out, list(CALLS)
+
+
+def seq_shard(arg):
+    cls_name, asy = arg
+    core.import_all_jinja()
+    p = core.Part()
+    kinds = SEQ_KINDS + (SEQ_KINDS_ASYNC if asy else []) + (SEQ_KINDS_CUSTOM if cls_name == "custom" else [])
+    for kind in kinds:
+        D = seq_danger_expr(kind)
+        plans = []
+        for S in seq_safe_exprs(kind):
+            for fid, pat in SEQ_FORMS:
+                if fid in ("attr-filter", "subscript") and S != "r.safe":
+                    continue
+                plans.append((f"template/{fid}", [pat.replace("@S", S).replace("@D", D)], False))
+            # across renders on one environment
+            plans.append(("renders/safe-then-unsafe", ["{{ %s() }}" % S, "{{ %s() }}" % D], False))
+            plans.append(("renders/safe-x3-then-unsafe", ["{{ %s() }}" % S] * 3 + ["{{ %s() }}" % D], False))
+            plans.append(("renders/fresh-objects", ["{{ %s() }}" % S, "{{ %s() }}" % D], True))
+            plans.append(("renders/same-template", ["{{ %s() }}{{ %s() if go }}" % (S, D)] * 2, False))
+        for pid, srcs, fresh in plans:
+            if pid == "renders/same-template":
+                srcs = [srcs[0].replace(" if go", " if false"), srcs[1].replace(" if go", "")]
+            # liveness with the unmarked twin
+            res, calls = seq_case(cls_name, asy, kind, srcs, marked=False, fresh_each_render=fresh)
+            if not calls:
+                raise core.HarnessError(f"sequence {pid} [{cls_name} async={asy}] {kind}: twin never called: {srcs!r} -> {res!r}")
+            p.evals += 1
+            res, calls = seq_case(cls_name, asy, kind, srcs, fresh_each_render=fresh)
+            last = res[-1]
+            bad = None
+            if calls:
+                bad = ("called", f"the unsafe callable ran {len(calls)} time(s)")
+            elif not (last[0] == "exc" and last[1] == "SecurityError"):
+                bad = ("no-security-error", f"outcome {last!r}, not SecurityError")
+            elif any(x[0] != "ok" for x in res[:-1]):
+                bad = ("no-security-error", f"an earlier render of safe calls failed: {res!r}")
+            if bad:
+                p.violation(f"C18/{bad[0]}/sequence/{family(kind)}/{pid}", {
+                    "msg": f"[{cls_name} async={asy}] {kind}, {pid}: {bad[1]}; templates {srcs!r} -> {res!r}",
+                    "env": cls_name, "async": asy, "marking": kind, "sequence": pid, "templates": srcs,
+                    "script": "from checks import c18\n"
+                              f"res, calls = c18.seq_case({cls_name!r}, {asy!r}, {kind!r}, {srcs!r}, fresh_each_render={fresh!r})\n"
+                              "print('results:', res)\nprint('unsafe callable ran', len(calls), 'time(s)')\n"
+                              "# plain: one SandboxedEnvironment, r = c18.make_resource(kind); render the templates in order with r=r\n",
+                })
+            p.sig(("seq", kind, pid, "called" if calls else last[1] if last[0] == "exc" else "ok"))
+            if kind == "unsafe-method" and pid in ("template/one-then", "renders/safe-then-unsafe"):
+                p.sample({"env": cls_name, "async": asy, "marking": kind, "sequence": pid, "templates": srcs,
+                          "outcome": last[1] if last[0] == "exc" else "ok", "callable_ran": len(calls)}, cap=2)
+    return p
+
+
+# ------------------------------------------------------------------ overrides that reject macros
+
+BODY: list = []
+MACRO_OVERRIDES = ["deny-all", "deny-macros", "allow-list", "deny-by-name"]
+DEF = "{% macro target() %}{{ c18v|c18body }}{{ varargs }}{{ kwargs }}{% endmacro %}"
+DEFC = "{% macro target() %}{{ c18v|c18body }}{{ caller() }}{% endmacro %}"
+LIB = DEF
+#: (id, template, overrides under which the *target* (or the call block body) must be refused)
+MACRO_FORMS = [
+    ("local", DEF + "{{ target() }}"),
+    ("local-args", DEF + "{{ target(1, a=2) }}"),
+    ("alias-set", DEF + "{% set g = target %}{{ g() }}"),
+    ("alias-with", DEF + "{% with g = target %}{{ g() }}{% endwith %}"),
+    ("call-block", DEFC + "{% call target() %}x{% endcall %}"),
+    ("from-import", '{% from "lib" import target %}{{ target() }}'),
+    ("from-import-alias", '{% from "lib" import target as t2 %}{{ t2() }}'),
+    ("from-import-ctx", '{% from "lib" import target with context %}{{ target() }}'),
+    ("module-attr", '{% import "lib" as lib %}{{ lib.target() }}'),
+    ("module-attr-filter", '{% import "lib" as lib %}{{ (lib|attr("target"))() }}'),
+    ("in-loop", DEF + "{% for i in [1, 2] %}{{ target() }}{% endfor %}"),
+    ("filter-arg", DEF + "{{ 1|default(target()) }}"),
+    ("test-arg", DEF + "{{ 1 is eq(target()) }}"),
+    ("if", DEF + "{% if target() %}x{% endif %}"),
+    ("do", DEF + "{% do target() %}"),
+    ("set-block", DEF + "{% set v %}{{ target() }}{% endset %}"),
+    ("list-item", DEF + "{{ [target][0]() }}"),
+    ("dict-item", DEF + '{{ {"t": target}.t() }}'),
+    ("condexpr", DEF + "{{ (target if true else 0)() }}"),
+    ("in-block", DEF + "{% block b %}{{ target() }}{% endblock %}"),
+    ("macro-default", DEF + "{% macro q(a=target()) %}{{ a }}{% endmacro %}{{ q() }}"),
+    ("nested-macro", DEF + "{% macro outer() %}{{ target() }}{% endmacro %}{{ outer() }}"),
+    ("passed-to-macro", DEF + "{% macro outer(g) %}{{ g() }}{% endmacro %}{{ outer(target) }}"),
+    ("caller", "{% macro wrap() %}{{ caller() }}{% endmacro %}{% call wrap() %}{{ c18v|c18body }}{% endcall %}"),
+    ("caller-args", "{% macro wrap() %}{{ caller(1) }}{% endmacro %}{% call(a) wrap() %}{{ c18v|c18body }}{% endcall %}"),
+    ("caller-alias", "{% macro wrap() %}{% set c = caller %}{{ c() }}{% endmacro %}{% call wrap() %}{{ c18v|c18body }}{% endcall %}"),
+]
+
+
+def macro_env(override, asy, autoescape=False):
+    import jinja2
+    from jinja2.runtime import Macro
+    from jinja2.sandbox import SandboxedEnvironment
+
+    class Env(SandboxedEnvironment):
+        allowed: list = []
+
+        def is_safe_callable(self, obj):
+            if override == "none":
+                return super().is_safe_callable(obj)
+            if override == "deny-all":
+                return False
+            if override == "deny-macros":
+                return not isinstance(obj, Macro) and super().is_safe_callable(obj)
+            if override == "allow-list":
+                return any(obj is a for a in self.allowed)
+            if override == "deny-by-name":
+                if isinstance(obj, Macro) and obj.name in ("target", None):
+                    return False
+                return super().is_safe_callable(obj)
+            raise AssertionError(override)
+
+    def body(v):
+        BODY.append(1)
+        return ""
+
+    env = Env(enable_async=asy, autoescape=autoescape, cache_size=0, extensions=["jinja2.ext.do"],
+              loader=jinja2.DictLoader({"lib": LIB}))
+    env.filters["c18body"] = body
+    env.globals["ident"] = ident = lambda *a, **k: "ID"
+    env.allowed = [ident]
+    return env
+
+
+def macro_case(override, asy, src, autoescape=False):
+    env = macro_env(override, asy, autoescape)
+    comp = sbx.compile_src(env, src)
+    del BODY[:]  # after compiling, in case the optimizer evaluates a filter early
+    res = sbx.render_code(env, comp, {})
+    return res, len(BODY)
+
+
+def macro_shard(arg):
+    asy, autoescape = arg
+    core.import_all_jinja()
+    p = core.Part()
+    for fid, src in MACRO_FORMS:
+        res, n = macro_case("none", asy, src, autoescape)
+        if not n or res[0] != "ok":
+            raise core.HarnessError(f"macro form {fid} [async={asy}] does not run the macro body without an override: {src!r} -> {res!r}")
+        for override in MACRO_OVERRIDES:
+            p.evals += 1
+            res, n = macro_case(override, asy, src, autoescape)
+            bad = None
+            if n:
+                bad = ("called", f"the macro body ran {n} time(s) although is_safe_callable rejects the macro")
+            elif not (res[0] == "exc" and res[1] == "SecurityError"):
+                bad = ("no-security-error", f"outcome {res!r}, not SecurityError")
+            if bad:
+                p.violation(f"C18/{bad[0]}/macro/{override}/{fid}", {
+                    "msg": f"[override={override} async={asy} autoescape={autoescape}] macro call form {fid}: {bad[1]}; "
+                           f"template {src!r} -> {res!r}",
+                    "override": override, "async": asy, "form": fid, "template": src,
+                    "script": "from checks import c18\n"
+                              f"print(c18.macro_case({override!r}, {asy!r}, {src!r}, {autoescape!r}))\n"
+                              "# plain: a SandboxedEnvironment subclass whose is_safe_callable rejects jinja2.runtime.Macro objects\n",
+                })
+            p.sig(("macro", override, fid, "called" if n else res[1] if res[0] == "exc" else "ok"))
+            if fid in ("local", "caller") and override == "deny-by-name":
+                p.sample({"override": override, "async": asy, "form": fid, "template": src,
+                          "outcome": res[1] if res[0] == "exc" else "ok", "macro_body_ran": n}, cap=1)
+    return p
+
+
+def dispatch(arg):
+    kind, payload = arg
+    return {"product": shard, "seq": seq_shard, "macro": macro_shard}[kind](payload)
+
+
 def chunks(xs, n):
     return [xs[i:i + n] for i in range(0, len(xs), n)]
 
@@ -475,11 +800,15 @@ def run(ctx: core.Ctx):
             plan.append((cls_name, asy, False, ctx.quick is False))
     if not ctx.quick:
         plan += [("sandboxed", False, True, True), ("sandboxed", True, True, True), ("custom", True, True, True)]
-    shards = [(c, a, esc, ids, everywhere) for (c, a, esc, everywhere) in plan for ids in chunks(ref_ids, 3)]
-    ctx.pmap(shard, shards)
+    shards = [("product", (c, a, esc, ids, everywhere)) for (c, a, esc, everywhere) in plan for ids in chunks(ref_ids, 3)]
+    shards += [("seq", (c, a)) for c in ("sandboxed", "immutable", "custom") for a in (False, True)]
+    shards += [("macro", (a, esc)) for a in (False, True) for esc in (False, True)]
+    ctx.pmap(dispatch, shards)
     ctx.cov["bounds"] = {
         "environments": [list(x[:3]) for x in plan], "reference_forms": len(REFS), "slots": len(SLOTS),
         "arg_shapes": len(ARG_SHAPES), "arg_shapes_in_every_slot": not ctx.quick,
+        "sequence_forms": len(SEQ_FORMS) + 4, "sequence_markings": len(SEQ_KINDS) + len(SEQ_KINDS_ASYNC) + len(SEQ_KINDS_CUSTOM),
+        "macro_call_forms": len(MACRO_FORMS), "macro_overrides": MACRO_OVERRIDES,
         "markings": {"standard": len(STD_MARKINGS), "async": len(ASYNC_MARKINGS),
                      "custom": len(CUSTOM_MARKINGS) + len(CUSTOM_ASYNC_MARKINGS)},
     }
